@@ -17,7 +17,7 @@ from harness import framework, tlc, c17
 from harness import dec_common as D
 
 QUICK_FILL = ["zeros", "ones", "boundary", "random", "random+p"]
-THOROUGH_FILL = ["zeros", "ones"] + ["boundary"] * 8 + ["random"] * 30 + ["random+p"] * 10 + ["boundary+p"] * 4
+THOROUGH_FILL = ["zeros", "ones"] + ["boundary"] * 6 + ["random"] * 14 + ["random+p"] * 6 + ["boundary+p"] * 2
 
 
 def fail_key(tr, line, clause):
